@@ -50,7 +50,12 @@ def strip_tags(value: str) -> str:
     """Return the given value with all HTML tags removed."""
     if "<" in value and ">" in value:
         parser = StripParser()
-        parser.feed(value)
-        parser.close()
+        try:
+            parser.feed(value)
+            parser.close()
+        except AssertionError as err:
+            # html.parser asserts on markup it has no rule for, an unknown
+            # keyword in a marked section like `<![foo[` for example.
+            raise ValueError(f"malformed markup, {err}") from err
         return parser.get_data()
     return value
